@@ -638,12 +638,8 @@ func (w *Writer) writeXRefStream(xRefDict Dict) error {
 		Predictor: FlatePredictorPNGUp,
 		Columns:   1 + w2 + w3,
 	}
-	xRefBuf := &bytes.Buffer{}
-	wxRaw, err := filter.Encode(w.meta.Version, withDummyClose{xRefBuf})
-	if err != nil {
-		return err
-	}
-	wx := bufio.NewWriter(wxRaw)
+	rawBuf := &bytes.Buffer{}
+	wx := bufio.NewWriter(rawBuf)
 	for i := uint32(0); i < w.nextRef; i++ {
 		entry := w.xref[i]
 		if entry == nil {
@@ -700,7 +696,17 @@ func (w *Writer) writeXRefStream(xRefDict Dict) error {
 			}
 		}
 	}
-	err = wx.Flush()
+	err := wx.Flush()
+	if err != nil {
+		return err
+	}
+
+	xRefBuf := &bytes.Buffer{}
+	wxRaw, err := filter.Encode(w.meta.Version, withDummyClose{xRefBuf})
+	if err != nil {
+		return err
+	}
+	_, err = wxRaw.Write(rawBuf.Bytes())
 	if err != nil {
 		return err
 	}
@@ -710,12 +716,19 @@ func (w *Writer) writeXRefStream(xRefDict Dict) error {
 	}
 	xRefData := xRefBuf.Bytes()
 
-	name, parms, err := filter.Info(w.meta.Version)
-	if err != nil {
-		return err
+	if int64(w.nextRef) > limits.MaxXRefEntries(int64(len(xRefData))) {
+		// A sparse table compresses so well that a reader which bounds the
+		// number of entries by the size of the stream (as this library
+		// does) would refuse it: store the entries uncompressed.
+		xRefData = rawBuf.Bytes()
+	} else {
+		name, parms, err := filter.Info(w.meta.Version)
+		if err != nil {
+			return err
+		}
+		xRefDict["Filter"] = name
+		xRefDict["DecodeParms"] = parms
 	}
-	xRefDict["Filter"] = name
-	xRefDict["DecodeParms"] = parms
 	xRefDict["Length"] = Integer(len(xRefData))
 
 	swx, err := w.OpenStream(ref, xRefDict)
